@@ -190,7 +190,8 @@ def generate(prop, rng, tier):
         else:
             ops.append(_gen_direct(rng, wp, pool))
     audit = rng.random() < 0.25
-    return {'swarm': {'wp': wp, 'tier': tier, 'built': sorted(subset), 'audit': audit}, 'init': {'pool': specs}, 'ops': ops,
+    return {'swarm': {'wp': wp, 'tier': tier, 'built': sorted(subset), 'audit': audit,
+                      'fail_exc': 'ImportError' if rng.random() < 0.25 else 'ModuleNotFoundError'}, 'init': {'pool': specs}, 'ops': ops,
             'faults': {'flips': flips}}
 
 
@@ -266,7 +267,8 @@ def execute(world, run, prop=None):
     spk = world.spk
     specs = [dict(sp) for sp in run['init']['pool']]
     events = []
-    plan = BackendPlan(run['swarm']['built'], run['faults'].get('flips'))
+    plan = BackendPlan(run['swarm']['built'], run['faults'].get('flips'),
+                       fail_exc=run['swarm'].get('fail_exc', 'ModuleNotFoundError'))
     shadow = Shadow(world, rec)
     from .. import _rt
     _rt.AUDIT[0] = bool(run['swarm'].get('audit'))
@@ -323,7 +325,7 @@ def _op_e2e(world, spk, rec, op, pool, specs, plan, events, shadow):
     try:
         for built in configs:
             world.reset_state()
-            world.plan = BackendPlan(built)
+            world.plan = BackendPlan(built, fail_exc=getattr(plan, 'fail_exc', 'ModuleNotFoundError'))
             world.shadow = None
             try:
                 for pre in op.get('prelude', []):
